@@ -24,7 +24,7 @@ def finish(pid, tier, verdict, coverage, tool_errors, wall, level='model_checkin
 
 
 def fam(names):
-    allp = {p['name']: p for p in programs.all_programs()}
+    allp = {p['name']: p for p in programs.all_programs() + programs.deep_programs()}
     return [allp[n] for n in names]
 
 
@@ -33,7 +33,7 @@ def bounds(tier, quick=(4, 3), thorough=(5, 3)):
 
 
 def c01(tier):
-    family = programs.all_programs()
+    family = programs.all_programs() + programs.deep_programs()
     v, cov, te, wall = syscheck.run_family(
         'C01', tier, family, ['Fresh'], [], {'rc', 'file'}, bounds(tier),
         sample_n=None if tier == 'thorough' else 40,
@@ -44,7 +44,7 @@ def c01(tier):
 
 
 def c02(tier):
-    family = programs.all_programs()
+    family = programs.all_programs() + programs.deep_programs()
     v, cov, te, wall = syscheck.run_family(
         'C02', tier, family, ['NoUnderBuild', 'NoDupRun'], ['NoOverBuild'],
         {'rc', 'ran', 'edge', 'rows', 'row.changed', 'row.checked', 'row.stamp', 'row.failed', 'row.gen', 'order'},
@@ -55,7 +55,7 @@ def c02(tier):
 
 
 def c03(tier):
-    family = fam(['stamped1plain', 'stamped1always', 'stamped2plain', 'stamped_nested'])
+    family = fam(['stamped1plain', 'stamped1always', 'stamped2plain', 'stamped_nested', 'stamp_toggle', 'stamped_deep'])
     v, cov, te, wall = syscheck.run_family(
         'C03', tier, family, ['Fresh', 'NoUnderBuild', 'NoDupRun'], ['NoOverBuild'],
         {'rc', 'ran', 'file', 'row.csum', 'row.changed', 'row.checked'},
@@ -66,7 +66,7 @@ def c03(tier):
 
 
 def c05(tier):
-    family = fam(['failing'])
+    family = fam(['failing', 'fail_diamond'])
     v, cov, te, wall = syscheck.run_family(
         'C05', tier, family, ['FailPropagates', 'NoCleanOverFailed', 'NoDupRun', 'NoUnderBuild'], [],
         {'rc', 'ran', 'row.failed', 'row.gen', 'file'},
@@ -76,7 +76,7 @@ def c05(tier):
 
 
 def c11(tier):
-    family = fam(['roles', 'defaults', 'chain'])
+    family = fam(['roles', 'defaults', 'chain', 'override2'])
     v, cov, te, wall = syscheck.run_family(
         'C11', tier, family, ['Fresh'], ['NoTrample'],
         {'rc', 'file', 'row.gen', 'row.ovr', 'ran'},
@@ -86,7 +86,7 @@ def c11(tier):
 
 
 def c14(tier):
-    family = fam(['ifcreate', 'always'])
+    family = fam(['ifcreate', 'always', 'ifcreate_deep', 'do_recreate'])
     v, cov, te, wall = syscheck.run_family(
         'C14', tier, family, ['Fresh', 'NoUnderBuild', 'NoDupRun'], ['NoOverBuild'],
         {'rc', 'ran', 'file', 'edge'},
@@ -96,4 +96,30 @@ def c14(tier):
     return finish('C14', tier, v, cov, te, wall)
 
 
-CHECKS = {'C01': c01, 'C02': c02, 'C03': c03, 'C05': c05, 'C11': c11, 'C14': c14}
+def c04(tier):
+    family = programs.output_family()
+    v, cov, te, wall = syscheck.run_family(
+        'C04', tier, family, ['NoTmpLeft', 'Fresh'], ['OnlyCompleteOutput', 'NoTrample'],
+        {'rc', 'file', 'tmp', 'ran', 'row.failed', 'row.gen'},
+        bounds(tier, (4, 3), (5, 4)), sample_n=None if tier == 'thorough' else 60,
+        pads=(1, 65536, 4194304) if tier == 'thorough' else (1, 65536, 1048576), watch=True,
+        note='one target whose rule versions cover stdout / $3 / nothing / both / direct write to $1, exit 0, '
+             'non-zero and death by SIGKILL, over prior states absent / generated / hand-written')
+    return finish('C04', tier, v, cov, te, wall)
+
+
+def c17(tier):
+    family = programs.query_family()
+    v, cov, te, wall = syscheck.run_family(
+        'C17', tier, family,
+        ['TargetsSourcesPartition', 'OodLower', 'OodUpper', 'OodEmptyAfterBuild', 'Fresh', 'NoUnderBuild'], ['NoOverBuild'],
+        {'rc', 'ran', 'file', 'rows', 'row.checked', 'row.changed', 'row.failed', 'row.gen', 'row.ovr', 'row.stamp', 'edge'},
+        bounds(tier, (4, 4), (5, 5)), sample_n=None if tier == 'thorough' else 60,
+        required_actions=['Query'],
+        note='redo-ood/targets/sources inserted at every position of the histories; the query output must equal '
+             'the specification\'s, the database must be unchanged by it, and the rest of the history must behave '
+             'as the specification says (which treats a query as a no-op except for the run id)')
+    return finish('C17', tier, v, cov, te, wall)
+
+
+CHECKS = {'C17': c17, 'C04': c04, 'C01': c01, 'C02': c02, 'C03': c03, 'C05': c05, 'C11': c11, 'C14': c14}
